@@ -76,7 +76,9 @@ def check(run):
             sc = sync_e2e.gen_scenario(rng, 'mixed')
             for p in list(sc.src):
                 if p and rng.random() < 0.5 and not any(q.startswith(p + '/') for q in sc.dest):
-                    sc.dest.setdefault('', {'k': 'dir'})
+                    if '' not in sc.dest:
+                        sc.dest[''] = {'k': 'dir'}
+                        sc.dest_anc = 'ok'            # the destination now exists: its ancestors do too
                     par = p.rsplit('/', 1)[0] if '/' in p else ''
                     if par in sc.dest and sc.dest[par]['k'] == 'dir':
                         for q in [q for q in sc.dest if q.startswith(p + '/')]:
